@@ -451,6 +451,10 @@ def rw_R19(rf, a, b):
     for k, i in enumerate(sg):
         if _seq_at(toks, sg, k, ["Box", ":", ":", "new", "(", "Cursor", ":", ":", "new", "("]):
             out.append((Edit(sg[k + 5], sg[k + 9], "verif_cursor", ("gen", "R19")), "R19 %s:%d Cursor::new(..) as body reader -> verif_cursor(..)" % (rf.rel, toks[i].line)))
+        if _seq_at(toks, sg, k, ["Cursor", "<", "Vec", "<", "u8", ">", ">"]):
+            out.append((Edit(i, sg[k + 6] + 1, "VerifCursor", ("gen", "R19")), "R19 %s:%d type Cursor<Vec<u8>> -> VerifCursor" % (rf.rel, toks[i].line)))
+        if _seq_at(toks, sg, k, ["Cursor", ":", ":", "new", "("]) and not (k >= 5 and _seq_at(toks, sg, k - 5, ["Box", ":", ":", "new", "("])):
+            out.append((Edit(i, sg[k + 3] + 1, "verif_cursor", ("gen", "R19")), "R19 %s:%d Cursor::new(..) -> verif_cursor(..)" % (rf.rel, toks[i].line)))
         if _seq_at(toks, sg, k, ["Box", ":", ":", "new", "(", "io", ":", ":", "empty", "(", ")"]):
             out.append((Edit(sg[k + 5], sg[k + 9], "verif_empty", ("gen", "R19")), "R19 %s:%d io::empty() as body reader -> verif_empty()" % (rf.rel, toks[i].line)))
     return out
